@@ -1053,12 +1053,12 @@ pub fn run(opts: &Opts) -> Report {
     let mut cases: Vec<Case> = Vec::new();
     let t = opts.thorough;
     gen_keywords(&mut cases, &mut rng);
-    gen_ints(&mut cases, &mut rng, if t { 150_000 } else { 25_000 });
-    gen_floats(&mut cases, &mut rng, if t { 150_000 } else { 30_000 });
-    gen_decimal_texts(&mut cases, &mut rng, if t { 100_000 } else { 20_000 });
-    gen_strings(&mut cases, &mut rng, if t { 300_000 } else { 80_000 });
-    gen_bytes(&mut cases, &mut rng, if t { 150_000 } else { 40_000 });
-    gen_malformed(&mut cases, &mut rng, if t { 20_000 } else { 5_000 });
+    gen_ints(&mut cases, &mut rng, if t { 350_000 } else { 25_000 });
+    gen_floats(&mut cases, &mut rng, if t { 350_000 } else { 30_000 });
+    gen_decimal_texts(&mut cases, &mut rng, if t { 250_000 } else { 20_000 });
+    gen_strings(&mut cases, &mut rng, if t { 700_000 } else { 80_000 });
+    gen_bytes(&mut cases, &mut rng, if t { 350_000 } else { 40_000 });
+    gen_malformed(&mut cases, &mut rng, if t { 50_000 } else { 5_000 });
 
     let threads = std::thread::available_parallelism().map(|n| n.get()).unwrap_or(4).min(16);
     let obs = evaluate(&cases, threads);
